@@ -21,7 +21,7 @@ Directive reference
   //@@ loop <n>                  following lines: invariant/decreases for n-th loop
   //@@ before [nth N] `anchor`   following lines inserted before the anchor
   //@@ after  [nth N] `anchor`   following lines inserted after the anchor
-  //@@ rewrite <rule> [count N|all]  then a `//@@- old` line and a `//@@+ new` line
+  //@@ rewrite <rule> [count N|all|optional]  then a `//@@- old` line and a `//@@+ new` line
   //@@ keepattrs                 do not drop attributes / doc comments
   //@@ nocanary                  no `ensures false` twin for this fn
   //@@ splitchain                R17: `for P in A.chain(B) {BODY}` => two loops with the verbatim body
@@ -370,9 +370,11 @@ def weave_item(hdr, subs, stats):
             continue
         old, new, cnt = d["old"], d["new"], d.get("count", 1)
         n = ot.s.count(old)
+        if n == 0 and cnt == "optional":
+            continue    # one of several alternative spellings (e.g. `>=` / `>`): each has its own twin
         if n == 0:
             raise WeaveError(f"rewrite {d['rule']}: text `{old}` not found in {what}")
-        if cnt != "all" and n != cnt:
+        if cnt not in ("all", "optional") and n != cnt:
             raise WeaveError(f"rewrite {d['rule']}: `{old}` occurs {n}x in {what}, expected {cnt}")
         pos = 0
         while True:
@@ -907,7 +909,7 @@ def parse_template(path, seen=None):
                             cur["nth"] = int(mm.group(1))
                         subs.append(cur)
                     elif op == "rewrite":
-                        mm = re.match(r"(\S+)(?:\s+count\s+(\d+)|\s+(all))?\s*$", rest)
+                        mm = re.match(r"(\S+)(?:\s+count\s+(\d+)|\s+(all|optional))?\s*$", rest)
                         if not mm:
                             raise WeaveError(f"{path}:{i+1}: bad rewrite directive")
                         old = lines[i + 1].strip()
@@ -916,7 +918,7 @@ def parse_template(path, seen=None):
                             raise WeaveError(f"{path}:{i+1}: rewrite needs //@@- and //@@+ lines")
                         d = {"op": "rewrite", "rule": mm.group(1),
                              "old": old[5:].strip(), "new": new[5:].strip()}
-                        d["count"] = int(mm.group(2)) if mm.group(2) else ("all" if mm.group(3) else 1)
+                        d["count"] = int(mm.group(2)) if mm.group(2) else (mm.group(3) if mm.group(3) else 1)
                         subs.append(d)
                         i += 2
                     elif op == "receiver":
